@@ -144,6 +144,9 @@ fn main() {
         std::process::exit(2);
     }
     let wall = t0.elapsed().as_secs_f64();
+    if monitor::guard_active() {
+        *cx.st.stat_sum.entry("allocations_served_from_the_page_fenced_pool".to_string()).or_insert(0.0) += monitor::sampled_fenced_allocations() as f64;
+    }
     cx.write_out(wall, true);
     if !cx.st.harness_errors.is_empty() {
         for e in &cx.st.harness_errors {
